@@ -18,6 +18,66 @@ type effect struct {
 	all   bool
 	names map[string]bool
 	fresh map[string]bool // arrays written only at objects allocated by the callee itself ("modifies fresh")
+	// "modifies *p": cell arrays (C|basic|) written only at the address held by a pointer PARAMETER of the function.
+	// via[n] = parameter indices; unres[n] = some write to n is not of that shape (then via[n] means nothing).
+	via   map[string]map[int]bool
+	unres map[string]bool
+}
+
+func (ef *effect) addVia(n string, idx int) {
+	if ef.via == nil {
+		ef.via = map[string]map[int]bool{}
+	}
+	if ef.via[n] == nil {
+		ef.via[n] = map[int]bool{}
+	}
+	ef.via[n][idx] = true
+}
+
+func (ef *effect) addUnres(n string) {
+	if ef.unres == nil {
+		ef.unres = map[string]bool{}
+	}
+	ef.unres[n] = true
+}
+
+// paramOnly: the parameter indices through which n is written, when every write to n has that shape.
+func (ef *effect) paramOnly(n string) map[int]bool {
+	if ef.all || ef.unres[n] || len(ef.via[n]) == 0 {
+		return nil
+	}
+	return ef.via[n]
+}
+
+// mergeCall merges a static callee's effect, translating "through parameter i" into the caller's terms: it stays a
+// parameter write only if the i-th argument is itself a parameter of the caller.
+func (ef *effect) mergeCall(ce *effect, args []ssa.Value, caller *ssa.Function) {
+	for n := range ce.names {
+		po := ce.paramOnly(n)
+		if po == nil {
+			ef.addUnres(n)
+			continue
+		}
+		for idx := range po {
+			if idx < len(args) {
+				if p, ok := args[idx].(*ssa.Parameter); ok && p.Parent() == caller {
+					ef.addVia(n, paramIndex(p))
+					continue
+				}
+			}
+			ef.addUnres(n)
+		}
+	}
+	ef.merge(ce)
+}
+
+func paramIndex(p *ssa.Parameter) int {
+	for i, q := range p.Parent().Params {
+		if q == p {
+			return i
+		}
+	}
+	return -1
 }
 
 func newEffect() *effect { return &effect{names: map[string]bool{}, fresh: map[string]bool{}} }
@@ -35,6 +95,9 @@ func (ef *effect) merge(ce *effect) {
 	}
 	for n := range ce.names {
 		ef.names[n] = true
+		if ce.unres[n] || len(ce.via[n]) == 0 {
+			ef.addUnres(n)
+		}
 	}
 	for n := range ce.fresh {
 		ef.addFresh(n)
@@ -169,7 +232,16 @@ func (e *Enc) instrEffect(in ssa.Instruction, ef *effect) {
 			}
 			return
 		}
-		writeNames(shapeOf(in.Addr), ef.names)
+		tmp := map[string]bool{}
+		writeNames(shapeOf(in.Addr), tmp)
+		for n := range tmp {
+			ef.names[n] = true
+			if p, ok := in.Addr.(*ssa.Parameter); ok && strings.HasPrefix(n, "C|") && isBasicPointee(p.Type()) {
+				ef.addVia(n, paramIndex(p))
+			} else {
+				ef.addUnres(n)
+			}
+		}
 	case *ssa.MapUpdate:
 		if _, fresh := in.Map.(*ssa.MakeMap); fresh {
 			tmp := map[string]bool{} // a map created by this very invocation
@@ -190,6 +262,13 @@ func (e *Enc) instrEffect(in ssa.Instruction, ef *effect) {
 				return
 			}
 			if e.db.isPureIface(c.Method) {
+				return
+			}
+			if fn := e.sealedMethod(c.Value.Type(), c.Method); fn != nil {
+				e.effDepth++
+				ce := e.effectOf(fn)
+				e.effDepth--
+				ef.mergeCall(ce, append([]ssa.Value{c.Value}, c.Args...), in.Parent())
 				return
 			}
 			ef.all = true
@@ -249,7 +328,7 @@ func (e *Enc) instrEffect(in ssa.Instruction, ef *effect) {
 			e.effDepth++
 			ce := e.effectOf(callee)
 			e.effDepth--
-			ef.merge(ce)
+			ef.mergeCall(ce, c.Args, in.Parent())
 		case *ssa.MakeClosure:
 			e.effDepth++
 			ce := e.effectOf(callee.Fn.(*ssa.Function))
@@ -287,6 +366,15 @@ func (e *Enc) instrEffect(in ssa.Instruction, ef *effect) {
 			ef.all = true
 		}
 	}
+}
+
+func isBasicPointee(t types.Type) bool {
+	pt, ok := t.Underlying().(*types.Pointer)
+	if !ok {
+		return false
+	}
+	_, ok = pt.Elem().Underlying().(*types.Basic)
+	return ok
 }
 
 // ---------------- driver ----------------
@@ -492,6 +580,9 @@ func (e *Enc) run() {
 		o := e.oblige("frame", "pure:writes="+strings.Join(ns, ","), e.fn.Pos(), ok)
 		o.Owned = true
 		e.cons = e.cons[:len(e.cons)-1] // a syntactic verdict: never assumed afterwards
+	}
+	if e.con != nil && e.con.Det {
+		e.detObligation()
 	}
 	// type invariant at every return
 	if len(e.tinv) > 0 && len(e.fn.Params) > 0 {
